@@ -77,3 +77,44 @@ Theorem call_dict_arity rec ip h w sp d argv : length argv <> 1%nat ->
   runG rec value ip h w (apply_body (EDict d) sp argv) = DoneG h w (inr (mkerr c_value sp)) 0.
 Proof. intros L. destruct argv as [|x [|y r]]; try reflexivity. elim L; reflexivity. Qed.
 Print Assumptions index_rule. Print Assumptions call_list. Print Assumptions call_dict. Print Assumptions callable_kinds.
+
+(* ---------- functions made by ㄴㄱ (pipe), ㅂㅂ (spread) and ㅁㅂ (collect) ---------- *)
+(* a pipe applies its stages from left to right; every stage receives what the stage before it RETURNED, as it is - nothing between two stages
+   evaluates it - and the pipe returns what its last stage returned, as it is (so a delayed call stays a tail call) *)
+Fixpoint pipe_spec (rec:list positive -> heap -> world -> task -> out) (ip:list positive) (sp:span) (es:list evalr) (h:heap) (w:world) (argv:list value) : outG value :=
+  match es with
+  | [] => match argv with a :: _ => DoneG h w (inl a) 0 | [] => DoneG h w (inr (mkerr c_value sp)) 0 end
+  | e :: r => thenG (of_out (rec ip h w (TComp (apply_body e sp argv)))) (fun h1 w1 x => pipe_spec rec ip sp r h1 w1 [x])
+  end.
+Definition pipe_go (sp:span) := fix go (es:list evalr) (argv:list value) : Comp value :=
+  match es with
+  | [] => match argv with a :: _ => Ret a | [] => raise c_value sp end
+  | e1 :: r => x <- call (PApply e1 sp argv) ;; go r [x] end.
+Lemma pipe_go_spec rec ip sp : forall es h w argv, runG rec value ip h w (pipe_go sp es argv) = pipe_spec rec ip sp es h w argv.
+Proof.
+  induction es as [|e r IH]; intros h w argv; cbn [pipe_go pipe_spec].
+  - destruct argv; reflexivity.
+  - unfold call. cbn [bind runG]. change (proc_body (PApply e sp argv)) with (apply_body e sp argv).
+    destruct (rec ip h w (TComp (apply_body e sp argv))) as [h1 w1 [x|er] d1| |]; cbn [of_out thenG Nat.add]; auto.
+    fold (pipe_go sp). rewrite IH. reflexivity.
+Qed.
+Theorem call_pipe rec ip h w sp i es argv : runG rec value ip h w (apply_body (EFun (FPipe i es)) sp argv) = pipe_spec rec ip sp es h w argv.
+Proof. change (apply_body (EFun (FPipe i es)) sp argv) with (pipe_go sp es argv). apply pipe_go_spec. Qed.
+(* a spread function hands its function ONE argument: the list of the arguments it was given, none of them evaluated *)
+Theorem call_spread rec ip h w sp i e argv :
+  runG rec value ip h w (apply_body (EFun (FSpread i e)) sp argv) =
+  thenG (of_out (rec ip h w (TComp (apply_body e sp [VList argv])))) (fun h1 w1 x => DoneG h1 w1 (inl x) 0).
+Proof.
+  cbn [apply_body call runG]. change (proc_body (PApply e sp [VList argv])) with (apply_body e sp [VList argv]).
+  destruct (rec ip h w (TComp (apply_body e sp [VList argv]))) as [h1 w1 [x|er] d1| |]; cbn [of_out thenG runG upddG Nat.add]; auto; try (f_equal; lia).
+Qed.
+(* a collect function takes ONE list (or exception) and hands its elements, unevaluated, to its function as separate arguments *)
+Theorem call_collect_list rec ip h w sp i e l :
+  runG rec value ip h w (apply_body (EFun (FCollect i e)) sp [VList l]) =
+  thenG (of_out (rec ip h w (TComp (apply_body e sp l)))) (fun h1 w1 x => DoneG h1 w1 (inl x) 0).
+Proof.
+  cbn [apply_body match_arguments length check_arity existsb Nat.eqb orb bind map_strict force runG check_type forallb orp is_list is_err andb call].
+  change (proc_body (PApply e sp l)) with (apply_body e sp l).
+  destruct (rec ip h w (TComp (apply_body e sp l))) as [h1 w1 [x|er] d1| |]; cbn [of_out thenG runG upddG Nat.add]; auto; try (f_equal; lia).
+Qed.
+Print Assumptions call_pipe. Print Assumptions call_spread. Print Assumptions call_collect_list.
